@@ -716,6 +716,7 @@ func (r *readerRun) exec(sc *xport.ScriptConn, outp *[]Ev) (out []Ev) {
 	big := make([]byte, kmax)
 
 	var rd io.Reader
+	var prevRd io.Reader // the reader of an earlier message, stale once the application has moved on
 	var acc []byte
 	contentCand := func() ([]int, bool) {
 		if len(acc) == 0 {
@@ -740,6 +741,9 @@ func (r *readerRun) exec(sc *xport.ScriptConn, outp *[]Ev) (out []Ev) {
 			var rr io.Reader
 			var err error
 			measure(func() { t, rr, err = c.NextReader() })
+			if rd != nil {
+				prevRd = rd
+			}
 			rd = rr
 			acc = nil
 			out = append(out, Ev{"e": "NR", "ok": err == nil, "type": t, "err": r.classify(err), "obs": r.takeObs()})
@@ -813,6 +817,9 @@ func (r *readerRun) exec(sc *xport.ScriptConn, outp *[]Ev) (out []Ev) {
 			var b []byte
 			var err error
 			measure(func() { b, err = io.ReadAll(websocket.JoinMessages(c, string(term))) })
+			if rd != nil {
+				prevRd = rd
+			}
 			rd = nil
 			segs, rest, restOK := r.splitJoined(b, term)
 			out = append(out, Ev{"e": "JA", "tl": op.K, "n": len(b), "segs": segs, "rest": rest, "restOK": restOK,
@@ -822,6 +829,9 @@ func (r *readerRun) exec(sc *xport.ScriptConn, outp *[]Ev) (out []Ev) {
 			var v interface{}
 			var err error
 			measure(func() { err = c.ReadJSON(&v) })
+			if rd != nil {
+				prevRd = rd
+			}
 			rd = nil
 			acc = nil
 			cand := []int{}
@@ -843,6 +853,22 @@ func (r *readerRun) exec(sc *xport.ScriptConn, outp *[]Ev) (out []Ev) {
 			e := r.classify(err)
 			atomic.StoreInt32(&r.healed, h)
 			out = append(out, Ev{"e": "WCP", "err": e, "obs": r.takeObs()})
+		case "RDO":
+			// Read on the reader of an EARLIER message after the application has moved on: delivers nothing, consumes nothing
+			if prevRd == nil {
+				continue
+			}
+			buf := big[:op.K]
+			var n int
+			var err error
+			measure(func() { n, err = prevRd.Read(buf) })
+			out = append(out, Ev{"e": "RDO", "k": op.K, "n": n, "err": r.classify(err), "obs": r.takeObs()})
+		case "SWD":
+			// SetWriteDeadline by the application (K < 0: a deadline that has already passed): the replies and closes the
+			// read side sends on its own use their own deadline
+			dl := time.Now().Add(time.Duration(op.K) * time.Second)
+			err := c.SetWriteDeadline(dl)
+			out = append(out, Ev{"e": "SWD", "k": op.K, "err": r.classify(err)})
 		case "SRD":
 			// SetReadDeadline is a pass-through: it must not change what the read API reports
 			err := c.SetReadDeadline(time.Time{})
@@ -852,6 +878,9 @@ func (r *readerRun) exec(sc *xport.ScriptConn, outp *[]Ev) (out []Ev) {
 			var b []byte
 			var err error
 			measure(func() { t, b, err = c.ReadMessage() })
+			if rd != nil {
+				prevRd = rd
+			}
 			rd = nil
 			acc = b
 			cand, any := contentCand()
